@@ -102,7 +102,7 @@ def run_case(case):
            "requested": ["_"] + list(requested), "which": which,
            "fitted": False, "forcepos": True, "values_match": True,
            "unchanged": True, "scale_ok": True, "retract_ok": True,
-           "repeat_ok": True, "history_ok": True,
+           "repeat_ok": True, "history_ok": True, "othercols_ok": True,
            "case": [recipe, state, requested, which]}
     try:
         idnt = make(recipe)
@@ -200,6 +200,30 @@ def run_case(case):
                     names=list(requested) if requested else None)
             rec["retract_ok"] = bool(np.array_equal(vr, vals,
                                                     equal_nan=True))
+            # ... nor does any column other than abscissa, force and fit
+            # (the stored residuals carry the contact-point weights, the
+            # fit range is bookkeeping)
+            j = make(recipe)
+            bring_to_state(j, state, recipe)
+            xax = j.fit_properties.get("x_axis", "tip position")
+            yax = j.fit_properties.get("y_axis", "force")
+            for col in list(j.columns):
+                if col in (xax, yax, "fit", "segment"):
+                    continue
+                a = np.array(j[col], copy=True)
+                if a.dtype == bool:
+                    j[col] = ~a
+                else:
+                    a = a.astype(float)
+                    j[col] = a * 2.7 + rng.standard_normal(a.size) * \
+                        (np.nanmax(np.abs(a)) or 1.)
+            with warnings.catch_warnings():
+                warnings.simplefilter("ignore")
+                vo = IndentationRater.compute_features(
+                    j, which_type=which,
+                    names=list(requested) if requested else None)
+            rec["othercols_ok"] = bool(np.array_equal(vo, vals,
+                                                      equal_nan=True))
     except BaseException as exc:
         if isinstance(exc, (KeyboardInterrupt, SystemExit)):
             raise
